@@ -545,6 +545,10 @@ async fn c07_phase1<I: Backing>(rng: &mut StdRng, i: u64, out: &mut CaseOut, inn
         } else {
             tokio::time::timeout(Duration::from_secs(5), fut).await
         };
+        if finished.is_ok() {
+            // the request is over: a crash point it did not reach must not fire later (e.g. in a purge tick)
+            ctl.park_after.store(-1, Ordering::SeqCst);
+        }
         match finished {
             Ok(true) => {
                 out.count("requests_acknowledged", 1);
@@ -558,13 +562,37 @@ async fn c07_phase1<I: Backing>(rng: &mut StdRng, i: u64, out: &mut CaseOut, inn
                     Req::Purge => vec![],
                 };
                 let (live, dead) = store_listing(node.store.as_ref(), ksn).await?;
+                // ... and what does the running node itself say it holds (its in-memory set)? An
+                // acknowledged mutation the node reports as applied counts as visible even if the
+                // backend did not write it: it must survive the restart all the same.
+                let (set_live, set_dead) = if items.is_empty() {
+                    (Vec::new(), Vec::new())
+                } else {
+                    // (bounded: a purge tick of the group may meanwhile have been parked inside the storage
+                    // wrapper by the armed crash point; then only storage is consulted)
+                    let look = async {
+                        let ks = node.group.get_or_create_keyspace(ksn).await;
+                        set_of(&ks).await
+                    };
+                    match tokio::time::timeout(Duration::from_secs(2), look).await {
+                        Ok(r) => enumerate(&r?),
+                        Err(_) => {
+                            out.count("set_not_readable_after_ack", 1);
+                            (Vec::new(), Vec::new())
+                        },
+                    }
+                };
                 for (id, t, tomb) in items {
                     if tomb {
                         acked_deletes.push((ksn.to_string(), id, t));
                     }
-                    let there = if tomb { dead.contains(&(id, t)) } else { live.contains(&(id, t)) };
-                    if there {
+                    let in_store = if tomb { dead.contains(&(id, t)) } else { live.contains(&(id, t)) };
+                    let in_set = if tomb { set_dead.contains(&(id, t)) } else { set_live.contains(&(id, t)) };
+                    if in_store || in_set {
                         visible.push((ksn.to_string(), id, t, tomb));
+                        if !in_store {
+                            out.count("applied_by_the_node_but_not_in_storage_at_ack", 1);
+                        }
                     }
                 }
             },
@@ -931,11 +959,130 @@ async fn c18_round(seed: u64, r: u64, k: usize, entry: u64, pre_yield: bool) -> 
     out
 }
 
+/// First uses of keyspace names on node B racing B's own repair from a peer A which already holds
+/// those names (the repair path learns of keyspaces from the peer and creates them locally).
+async fn c18_repair_round(seed: u64, r: u64, pre_yield: bool) -> CaseOut {
+    let mut out = CaseOut::default();
+    let mut rng = rng_for(seed, 0xC18_4E9, r);
+    let (addr_a, addr_b) = (scen_addr(28, r), scen_addr(29, r));
+    let a = match ActorNode::start(Arc::new(MemStore::default()), Ctl::new(1), addr_a, false).await {
+        Ok(n) => n,
+        Err(e) => {
+            out.inconclusive = Some(e);
+            return out;
+        },
+    };
+    let b = match ActorNode::start(Arc::new(MemStore::default()), Ctl::new(2), addr_b, false).await {
+        Ok(n) => n,
+        Err(e) => {
+            out.inconclusive = Some(e);
+            return out;
+        },
+    };
+    let m = *[1usize, 2, 5, 12, 40].choose(&mut rng).unwrap();
+    let names: Vec<String> = (0..m).map(|j| format!("peer-held-{seed}-{r}-{j}")).collect();
+    let base = 70_000_000u64;
+    // the peer holds one document in each keyspace
+    for (j, n) in names.iter().enumerate() {
+        let ks = a.group.get_or_create_keyspace(n).await;
+        let _ = ks.send(ecv::Set { source: 0, doc: doc(5_000 + j as u64, ts(base + j as u64 * 4, 0, 1)), ctx: None, _marker: PhantomData }).await;
+    }
+    for n in &names {
+        let _ = ecv::take_add_state_calls(n); // the peer's own creations do not count
+    }
+    // B repairs from A while the first local uses of the same names arrive at B
+    let repair = {
+        let group = b.group.clone();
+        tokio::spawn(async move { ecv::repair_from(group, RpcNetwork::default(), 1, addr_a).await })
+    };
+    let mut handles = Vec::new();
+    for (j, n) in names.iter().enumerate() {
+        let group = b.group.clone();
+        let n = n.clone();
+        let yields = if pre_yield { rng.gen_range(0..12) } else { 0 };
+        let entry = rng.gen_range(0..3);
+        let stamp = ts(base + 1_000 + j as u64 * 4, 0, 40 + (j % 100) as u8);
+        let chan = Channel::connect(addr_b);
+        handles.push(tokio::spawn(async move {
+            for _ in 0..yields {
+                tokio::task::yield_now().await;
+            }
+            let id = 9_000 + j as u64;
+            let ok = match entry {
+                0 => {
+                    let ks = group.get_or_create_keyspace(&n).await;
+                    ks.send(ecv::Set { source: 0, doc: doc(id, stamp), ctx: None, _marker: PhantomData }).await.is_ok()
+                },
+                1 => {
+                    let mut c = ecv::ConsistencyClient::<HStore<MemStore>>::new(Clock::new(200), chan);
+                    c.put(n.clone(), doc(id, stamp), 77, SocketAddr::from(([10, 77, 0, 1], 1))).await.is_ok()
+                },
+                _ => {
+                    let mut c = ecv::ConsistencyClient::<HStore<MemStore>>::new(Clock::new(201), chan);
+                    c.multi_put(n.clone(), [doc(id, stamp)].into_iter(), 77, SocketAddr::from(([10, 77, 0, 1], 1))).await.is_ok()
+                },
+            };
+            (n, id, stamp, ok)
+        }));
+    }
+    let mut acked = Vec::new();
+    for h in handles {
+        match h.await {
+            Ok((n, id, stamp, true)) => acked.push((n, id, stamp)),
+            Ok(_) => {},
+            Err(e) => out.inconclusive = Some(format!("task failed: {e}")),
+        }
+    }
+    let synced = repair.await.map(|t| t.len()).unwrap_or(0);
+    out.count("first_uses_during_a_repair", m as u64);
+    out.count("keyspaces_synchronised_by_the_repair", synced as u64);
+    let mut overlapped = 0u64;
+    for n in &names {
+        if ecv::take_add_state_calls(n) >= 2 {
+            overlapped += 1;
+        }
+    }
+    out.count("keyspace_states_created_twice_during_repair", overlapped);
+    out.nontrivial = Some(hash_of(&("repair", r, m, overlapped)));
+    for (n, id, stamp) in &acked {
+        let ks = b.group.get_or_create_keyspace(n).await;
+        match set_of(&ks).await {
+            Ok(set) => {
+                let listing = enumerate(&set);
+                if !listing.0.contains(&(*id, *stamp)) {
+                    out.violate(
+                        "C18:acknowledged-operation-missing-from-the-keyspace-state:first-use-during-repair-from-a-peer",
+                        json!({"keyspace": n, "missing": [id, ts_json(*stamp)], "state": listing_json(&listing), "names_held_by_the_peer": m, "round": r}),
+                    );
+                    break;
+                }
+                match store_listing(b.store.as_ref(), n).await {
+                    Ok(store) if store != listing => {
+                        out.violate(
+                            "C18:set-and-store-disagree-after-first-use-during-repair",
+                            json!({"keyspace": n, "set": listing_json(&listing), "store": listing_json(&store)}),
+                        );
+                        break;
+                    },
+                    _ => {},
+                }
+            },
+            Err(e) => out.inconclusive = Some(e),
+        }
+    }
+    if !out.violations.is_empty() {
+        out.replay = Some(json!({"mode": "repair", "round": r}));
+    }
+    a.stop();
+    b.stop();
+    out
+}
+
 pub fn c18(args: &Args) {
     let mut report = Report::new(
         args,
         "E1-actor",
-        "k in 2..8 tasks concurrently make the first use of a fresh keyspace name on one real KeyspaceGroup through different entry points (get_or_create_keyspace + Set; ConsistencyService put / multi_put over the in-memory transport; ReplicationService GetState followed by a repair-sourced Set) and send one mutation each (distinct ids, distinct origins, stamps inside one window so every one applies). A later lookup's serialized set must contain every acknowledged operation and agree with storage. Runtimes: current-thread (the awaits inside add_state yield naturally; task order rotated) and multi-thread with 2/4/16 workers and random pre-yields. A creation counter (hook H6) observes how many states were created per name. Non-trivial = >= 2 states were created for the name (first uses overlapped); distinct = distinct (round, k, entry rotation, creations).",
+        "k in 2..8 tasks concurrently make the first use of a fresh keyspace name on one real KeyspaceGroup through different entry points (get_or_create_keyspace + Set; ConsistencyService put / multi_put over the in-memory transport; ReplicationService GetState followed by a repair-sourced Set) and send one mutation each (distinct ids, distinct origins, stamps inside one window so every one applies). A later lookup's serialized set must contain every acknowledged operation and agree with storage. Runtimes: current-thread (the awaits inside add_state yield naturally; task order rotated) and multi-thread with 2/4/16 workers and random pre-yields. Second scenario: node B runs a repair from a peer A that already holds 1..40 keyspace names (the repair path creates them on B) while the first local uses of those same names (group, consistency put / multi_put) arrive at B; every acknowledged operation must be in the state a later lookup serializes, set == store. A creation counter (hook H6) observes how many states were created per name. Non-trivial = >= 2 states were created for the name (first uses overlapped); distinct = distinct (round, k, entry rotation, creations).",
     );
     let seed = args.seed;
     let rounds = args.pick(40_000, 1_000_000);
@@ -946,6 +1093,25 @@ pub fn c18(args: &Args) {
         let k = 2 + (r % 7) as usize;
         block_on_paused(c18_round(seed, r, k, r / 7, r % 3 == 0))
     });
+    // first uses racing the node's own repair from a peer that already holds the names
+    let n_repair = args.pick(4_000, 100_000);
+    run_cases(&mut report, n_repair, args.threads, budget, |r| block_on_paused(c18_repair_round(seed, r, r % 4 != 0)));
+    {
+        let n = n_repair / 20;
+        let outs = block_on_real(4, async move {
+            let mut v = Vec::new();
+            for j in 0..n {
+                if t0.elapsed() > budget * 2 {
+                    break;
+                }
+                v.push(c18_repair_round(seed, 50_000_000 + j, true).await);
+            }
+            v
+        });
+        for o in outs {
+            report.absorb(o);
+        }
+    }
     // multi-thread runtimes, one at a time
     let mut r = rounds;
     for (workers, name) in [(2usize, "rounds_multi_2"), (4, "rounds_multi_4"), (16, "rounds_multi_16")] {
@@ -970,6 +1136,9 @@ pub fn c18(args: &Args) {
     }
     report.floor("first_uses", 10_000);
     report.floor("rounds_with_overlapping_first_use", 100);
+    report.floor("first_uses_during_a_repair", 10_000);
+    report.floor("keyspaces_synchronised_by_the_repair", 5_000);
+    report.floor("keyspace_states_created_twice_during_repair", 50);
     report.finish(args);
 }
 
